@@ -126,7 +126,7 @@ def gen_family(rng):
         return new_c({"id": 0, "kind": "MinimumTrials", "trials": n})
     if shape == "shared-mintrials":
         m = mt(rng.choice([3, 4]))
-        leaf(small, small, list(shared) + [m, mt(rng.choice([5, 6]))])
+        leaf(small, small, list(shared) + [mt(rng.choice([5, 6])), m])
         leaf(small, small, list(shared) + [m])
     elif shape == "two-leaves":
         leaf(maybe_extra(small), small, list(shared) + ([mt(rng.choice([3, 4, 5]))] if rng.random() < 0.4 else []))
@@ -195,7 +195,7 @@ def corpus():
         "main": 1}))
     out.append(("shared-minimumtrials", {
         "factors": [f], "constraints": [{"id": 0, "kind": "MinimumTrials", "trials": 3}, {"id": 1, "kind": "MinimumTrials", "trials": 6}],
-        "blocks": [{"id": 0, "kind": "CrossBlock", "design": [0], "crossing": [0], "constraints": [0, 1], "rcc": True},
+        "blocks": [{"id": 0, "kind": "CrossBlock", "design": [0], "crossing": [0], "constraints": [1, 0], "rcc": True},
                    {"id": 1, "kind": "CrossBlock", "design": [0], "crossing": [0], "constraints": [0], "rcc": True}],
         "main": 1}))
     out.append(("nest-outer-exactlyk", {
@@ -700,9 +700,11 @@ def run(ctx, res):
                 if mt != ms:
                     model_says_differs += 1
     stats["model:shared-summary-differs-from-twin"] = model_says_differs
+    known = set(k["sig"] for k in common.load_known() if k.get("property") == "C18" and k.get("status") == "open")
     for sig, (name, p, bid, d) in sorted(found.items()):
         try:
-            small = shrink(p, bid, sig)
+            # a listed finding is reported by its signature only: the smallest program met is kept as it is
+            small = p if sig in known else shrink(p, bid, sig)
             d2, _, _ = reuse_failure(small, bid)
             d = d2 or d
         except Exception:  # noqa
